@@ -107,6 +107,7 @@ struct IWrap {
     size_t size() const { return l.size(); }
     bool empty() const { return l.empty(); }
     template <class It> bool erase_at( It const& it ) { return l.erase_at( it ); }
+    void clear() { l.clear(); }
     template <class S = ISet> auto rbegin() -> decltype( std::declval<S&>().rbegin()) { return l.rbegin(); }
     template <class S = ISet> auto rend() -> decltype( std::declval<S&>().rend()) { return l.rend(); }
     // unlink the item that was inserted with the identity value of the key; false if there is no such item
